@@ -80,7 +80,12 @@ def case_history(ctx, case):
     npos = sum(1 for e in ext if e > 0)
     lowdim_ok = ext[0] > 0 and ext[2] == 0          # line (w,0,0) or flat grid (w,h,0): table dimensionality is unambiguous
 
+    look_p = rng.choice([1.0, 1.0, 0.5, 0.25])          # the cell table is looked at after every operation, or only now and then
+
     def verify(what):
+        if what.startswith(('after add ', 'after remove ', 'after updating ', 'after adding ')) and rng.random() >= look_p:
+            ctx.count('operations_after_which_nobody_looked')
+            return
         cols = list(env.cells.columns)
         if sorted(cols) != sorted(['pos'] + list(shadow)):
             raise CaseViolation(f'{what}: cell components present are {cols}, expected pos + {sorted(shadow)}', shape=ext, trace=trace[-8:])
@@ -390,6 +395,7 @@ def case_history(ctx, case):
             ctx.count('rejected_unknown_removal')
             trace.append(('remove!', name))
             verify(f'after rejected removal of {name}')
+    verify('at the end of the history')
     ctx.state((kind, tuple(ext)))
     if len(kinds_used) >= 3 and 'removal_with_others' in flags and ncells >= 2:
         ctx.distinct((tuple(ext), kind, tuple(trace)))
